@@ -220,11 +220,12 @@ int main(int argc, char** argv) {
   for (size_t i = 0; i < wls.size(); ++i) {
     auto& w = wls[i];
     bool def = i == 0;
-    add(w.n, w.r, P["cross"], {2}, 2, 1, 2, 4);
+    // default worklist: two deviations in the quick tier as well
+    add(w.n, w.r, P["cross"], {2}, 2, def ? 2 : 1, 2, 4);
     add(w.n, w.r, P["triangle"], {2}, 2, def ? 1 : -1, 2, 4);
     add(w.n, w.r, P["reacquire"], {1, 1}, 2, def ? 1 : -1, 2, 4);
-    add(w.n, w.r, P["abort-heavy"], {2}, 2, 1, 2, 4);
-    add(w.n, w.r, P["handoff"], {2}, 2, 1, 2, 4);
+    add(w.n, w.r, P["abort-heavy"], {2}, 2, def ? 2 : 1, 2, 4);
+    add(w.n, w.r, P["handoff"], {2}, 2, def ? 2 : 1, 2, 4);
     add(w.n, w.r, P["handoff-abort"], {1, 1}, 2, def ? 1 : -1, 2, 4);
     if (def)
       add(w.n, w.r, P["big-push"], {2}, 2, 0, 1, 4);
